@@ -1120,6 +1120,42 @@ def c_store_empty(repo):
     return {'tokens': src(t)}
 
 
+@control(['C15', 'C17'], 'group-parser-is-memoised', ['R17.g'], 'cache the results of the argument-string parser')
+def c_memo_parse(repo):
+    t = parse(repo, 'data')
+    fn = find_func(t, 'parse', cls='TexGroup')
+    fn.decorator_list.append(ast.parse('functools.lru_cache(maxsize=None)').body[0].value)
+    return {'data': src(t)}
+
+
+@control(['C08'], 'closer-discard-count-changed', ['R08.c'], 'discard a different literal number of tokens after the closer look-ahead')
+def c_literal_discard(repo):
+    t = parse(repo, 'reader')
+    for fn in ast.walk(t):
+        if isinstance(fn, ast.FunctionDef):
+            for n in ast.walk(fn):
+                if is_call_attr(n, 'forward') and n.args and isinstance(n.args[0], ast.Constant) and isinstance(n.args[0].value, int) \
+                        and n.args[0].value > 2:
+                    n.args[0] = ast.Constant(n.args[0].value - 1)
+                    return {'reader': src(t)}
+    raise NotApplicable('literal-count discard')
+
+
+@control(['C12'], 'sizing-rule-gives-up-after-two-backslashes', ['R12.f'], 'let the sizing-command rule decline when the character two back is a backslash')
+def c_sizing_lookbehind(repo):
+    t = parse(repo, 'tokens')
+    fn = _rule_storing(t, 'PunctuationCommandName')
+    guard = ast.parse('if text.peek(-2) and text.peek(-2).category == CC.Escape:\n    return').body[0]
+    p0 = fn.args.args[0].arg
+    for n in ast.walk(guard):
+        if isinstance(n, ast.Name) and n.id == 'text':
+            n.id = p0
+    body = fn.body
+    i = 1 if body and isinstance(body[0], ast.Expr) and isinstance(body[0].value, ast.Constant) else 0
+    body.insert(i, guard)
+    return {'tokens': src(t)}
+
+
 # ---- argument lists (C18)
 
 @control(['C18'], 'reverse-forgets-shadow', ['R18.a'], 'reverse only the list proper')
@@ -1127,6 +1163,15 @@ def c_reverse(repo):
     t = parse(repo, 'data')
     fn = find_func(t, 'reverse', cls='TexArgs')
     remove_stmt(fn, lambda s_: isinstance(s_, ast.Expr) and is_call_attr(s_.value, 'reverse') and 'all' in ast.unparse(s_.value))
+    return {'data': src(t)}
+
+
+@control(['C18'], 'clear-rebuilds-list-from-shadow', ['R18.g'], 'clear the shadow, then rebuild the list proper from it')
+def c_clear_from_shadow(repo):
+    t = parse(repo, 'data')
+    fn = find_func(t, 'clear', cls='TexArgs')
+    remove_stmt(fn, lambda s_: isinstance(s_, ast.Expr) and is_call_attr(s_.value, 'clear') and 'super' in ast.unparse(s_.value))
+    fn.body.extend(ast.parse('super().clear()\nsuper().extend(a for a in self.all)').body)
     return {'data': src(t)}
 
 
